@@ -23,10 +23,35 @@ out+=['**Repaired** (each reproduced on the real code by the finder before the r
 for g,x in fixed: out.append(f"* [{x.get('property')}] `{x.get('commit','')}` {cell(x.get('what',''))}  ({g})")
 out+=['','**Listed (known findings; the check prints `KNOWN-FINDING` for exactly these signatures and reports any other violation):**','']
 for g,x in listed: out.append(f"* [{x.get('property')}] `{x.get('signature')}` - {cell(x.get('what',''))}  ({g})")
+# ---- §12 data gathered first (printed after §11)
+import subprocess, sys
+sys.path.insert(0, V+'/tools')
+tb=['','## 12. Trusted base as built (generated)','',
+ '* **Proof assistant**: Coq 8.16.1 (`coqc`, full `.vo` builds through `coq_makefile`; never `-vos`). `vm_compute` is used inside proofs of finite facts (tables, reachable-state closures, refutation witnesses) and to evaluate the correspondence shards; `native_compute` is not used. No `Axiom`/`Parameter`/`Conjecture`/`Admitted`/`admit`/`Admit Obligations`, no Variable/Hypothesis outside a Section, no disabled guard/positivity/universe checks (`tools/setup.sh` greps the development and fails otherwise). `Print Assumptions` is printed under every property theorem on every run and recorded in the evidence: every theorem is closed under the global context (no stdlib axiom is used either). The thorough tier re-checks the property files with `coqchk -silent -o` (result in evidence `coverage.coqchk`: no axioms).',
+ '* **Extraction**: not used (no `Extract Constant` / `Extract Inductive`); models are evaluated inside Coq by `vm_compute`.',
+ '* **Translators** (Go programs in `harness/cmd/*/gen*.go`, go/ast + reflect; regenerate `coq/Gen/*.v` from /repo on every run; a translator that does not recognise the source emits `<name>_translator_ok := false`, which breaks an obligation): ' + ', '.join(sorted(os.path.basename(g) for g in glob.glob(V+'/coq/Gen/*.v'))) + '.  A wrong translator could mis-read the source; mitigated by the correspondence runs, which exercise the same code paths on the real implementation.',
+ '* **Correspondence harness and finders**: `harness/cmd/<group>/*.go` + `harness/vhlib` (generators, canonicalisation, Coq case printers) and `tools/check.py` (decision logic).  They are test code: a bug there can hide a disagreement or raise a false alarm; the seeded-change loop (§9) is the empirical check on them.',
+ '* **Modelled rather than verified**: every file under `coq/Model` that is not generated is a hand-written model of the Go code; the theorems are about these models; the tie is the correspondence (finite, per run) and the translators (shape of selected source spots).  What each model leaves out is listed per group in §11 ("Partial"/"Limits").',
+ '* **Assumed specifications of external code** (named in the meta parts): Go `sync/atomic` sequential consistency, `math/rand` through a scripted source, `crypto/tls`/x509 acceptance per ClientAuthType (validated cell by cell with real handshakes), Go `regexp`/`net.SplitHostPort`/`url` functions supplied as inputs, thrift/TarsGo/hessian body codecs as explicit premises validated on the real libraries each run, IEEE float64 ordering of distinct EDF deadlines, wall-clock timers ordered by observed timestamps.','']
+hooks=subprocess.run("git -C /repo log --reverse --format='%h %s' a37e84986..HEAD", shell=True, capture_output=True, text=True).stdout.strip().splitlines()
+hk=[l for l in hooks if ' verif hook' in l]; fx=[l for l in hooks if ' fix:' in l]
+tb+=[f'* **Hooks in /repo** ({len(hk)} commits, add-only files `verif_hooks*.go` under `//go:build verif`; the single non-additive edit is the `verifYield()` call in `pkg/upstream/cluster/health.go` with a no-op twin): '+'; '.join('`'+l.split()[0]+'` '+' '.join(l.split()[1:])[:90] for l in hk),'',
+     f'* **Repairs in /repo**: {len(fx)} `fix:` commits (independent maintainer-style review: notes/fixreview.md, included in §11).','']
+import re as _re
+rows=[]
+for mp in sorted(glob.glob(V+'/meta/parts/*.json')):
+    m=json.load(open(mp)); pid=os.path.basename(mp).split('.')[0]; grp=os.path.basename(mp).split('.')[1]
+    n=0
+    for pf in m.get('props_files',[]):
+        try: n+=len(_re.findall(r'^(Theorem|Lemma|Example|Corollary)\s+\w+', open(V+'/coq/'+pf).read(), _re.M))
+        except Exception: pass
+    rows.append(f"| {pid} | {grp} | {', '.join(m.get('props_files',[]))} | {n} | {cell(m.get('level_note',''))[:600]} |")
+tb+=['**Property parts** (statements counted in the Props files; `level_note` = what is assumed / partial):','','| property | group | theorem files | statements | level note |','|---|---|---|---|---|']+rows+['']
 out+=['','## 11. As-built notes per group (what is modelled, theorems, tie, trusted base, limits, false alarms corrected)','']
 for n in sorted(glob.glob(V+'/notes/*.md')):
     body=open(n).read()
     body=re.sub(r'^(#+) ',lambda m:'##'+m.group(1)+' ',body,flags=re.M)   # demote headings
     out+=[f'<!-- from {os.path.relpath(n,V)} -->',body,'']
+out+=tb
 open(V+'/DESIGN.md','w').write(head+'\n'.join(out)+'\n')
 print('DESIGN.md regenerated tail:',len(out),'lines')
